@@ -149,7 +149,7 @@ pub fn run(args: &Args) -> ! {
         for err in ["none", "small", "big", "huge"] {
             for exit in ["0", "1", "2", "255", "kill"] {
                 for when in ["before", "during", "after"] {
-                    for rgmode in ["full", "-m1", "-q", "-l", "count", "implicit", "heading"] {
+                    for rgmode in ["full", "-m1", "-q", "-l", "count", "implicit", "heading", "parallel", "json"] {
                         for glob in ["*.txt", "none", "!*.dat", "*.dat", "!*.txt"] {
                             if tier == Tier::Quick {
                                 // one fault dimension at a time around a base point, plus all of {exit x when x rgmode}
@@ -205,7 +205,8 @@ pub fn run(args: &Args) -> ! {
                 }
             }
             let mode_args: Vec<&str> = match c.rgmode {
-                "full" | "implicit" => vec!["-n"],
+                "full" | "implicit" | "parallel" => vec!["-n"],
+                "json" => vec!["--json"],
                 "heading" => vec!["-n", "--heading"],
                 "-m1" => vec!["-n", "-m1"],
                 "-q" => vec!["-q"],
@@ -219,7 +220,13 @@ pub fn run(args: &Args) -> ! {
             }
             let want = run_timed(refcmd, horizon);
             let mut cmd = Command::new(&rg);
-            cmd.current_dir(&d).args(["--no-config", "--color", "never", "-j1", "--sort", "path"]).arg("--pre").arg(&script);
+            // ("parallel": the multi-threaded driver; everything else goes
+            // through the single-threaded one)
+            if c.rgmode == "parallel" {
+                cmd.current_dir(&d).args(["--no-config", "--color", "never", "-j2"]).arg("--pre").arg(&script);
+            } else {
+                cmd.current_dir(&d).args(["--no-config", "--color", "never", "-j1", "--sort", "path"]).arg("--pre").arg(&script);
+            }
             if c.glob != "none" {
                 cmd.args(["--pre-glob", c.glob]);
             }
@@ -237,7 +244,7 @@ pub fn run(args: &Args) -> ! {
                 why.push("rg did not finish within the horizon (blocked)".into());
             }
             let stderr = String::from_utf8_lossy(&got.stderr).to_string();
-            let early_stop_flag = matches!(c.rgmode, "-m1" | "-q" | "-l") || (c.out == "bin" && c.rgmode != "count");
+            let early_stop_flag = matches!(c.rgmode, "-m1" | "-q" | "-l") || (c.out == "bin" && !matches!(c.rgmode, "count" | "json"));
             let mut any_failed_after_eof = false;
             let mut all_ok = true;
             let mut any_early = false;
@@ -248,6 +255,11 @@ pub fn run(args: &Args) -> ! {
                     let text = String::from_utf8_lossy(out).to_string();
                     if c.rgmode == "heading" {
                         text.lines().skip_while(|l| l != f).take_while(|l| !l.is_empty()).map(|s| s.to_string()).collect()
+                    } else if c.rgmode == "json" {
+                        // the begin / match messages attributed to this file
+                        // (end and summary messages carry timings)
+                        let tag = format!("\"path\":{{\"text\":\"{}\"}}", f);
+                        text.lines().filter(|l| l.contains(&tag) && !l.starts_with("{\"type\":\"end\"")).map(|s| s.to_string()).collect()
                     } else {
                         text.lines().filter(|l| l.starts_with(f)).map(|s| s.to_string()).collect()
                     }
@@ -292,7 +304,7 @@ pub fn run(args: &Args) -> ! {
                             any_early = true;
                             // stopped early: a command that is terminated because rg stopped
                             // reading is not an error — judged when its stderr is empty
-                            if c.err == "none" && c.when == "after" && (c.out == "big" || (c.out == "bin" && c.rgmode != "count")) && names_f {
+                            if c.err == "none" && c.when == "after" && (c.out == "big" || (c.out == "bin" && !matches!(c.rgmode, "count" | "json"))) && names_f {
                                 why.push(format!("stopping early on {} was treated as an error: {:?}", f, &stderr[..stderr.len().min(160)]));
                             }
                         }
@@ -312,7 +324,7 @@ pub fn run(args: &Args) -> ! {
                 if got.status != want.status {
                     why.push(format!("exit status {} (searching the same bytes directly gives {})", got.status, want.status));
                 }
-            } else if any_early && c.err == "none" && c.when == "after" && (c.out == "big" || (c.out == "bin" && c.rgmode != "count")) && got.status == 2 {
+            } else if any_early && c.err == "none" && c.when == "after" && (c.out == "big" || (c.out == "bin" && !matches!(c.rgmode, "count" | "json"))) && got.status == 2 {
                 why.push("stopping early was treated as an error (status 2)".into());
             }
             if any_early {
